@@ -105,12 +105,21 @@ def strategy_(draw, tier):
                 s = draw(st.sampled_from(sorted(dec["art"])))
                 t = b.add_hap(chrom)
                 b.link(s, draw(st.sampled_from("+-")), t, "+")
+                # the tip may be a chain of several haplotype segments (its inner ones are articulation points off the reference)
+                for _ in range(draw(st.sampled_from([0, 0, 1, 2]))):
+                    t2 = b.add_hap(chrom, abut_to=t)
+                    b.link(t, "+", t2, "+")
+                    t = t2
         elif plan == "tip_bubble":
             dec = models.chain_decompose(g["nodes"], g["links"], chrom["nodes"])
             inner = sorted(set(chrom["nodes"]) - set(dec.get("art", ())))
             x = draw(st.sampled_from(inner))
             t = b.add_hap(chrom)
             b.link(x, "+", t, "+")
+            for _ in range(draw(st.sampled_from([0, 0, 1, 2]))):
+                t2 = b.add_hap(chrom, abut_to=t)
+                b.link(t, "+", t2, "+")
+                t = t2
         elif plan == "join":
             other = b.chroms[draw(st.integers(0, i - 1))]
             if len(other["nodes"]) != len(chrom["nodes"]) and other["name"] not in merged_away and name not in merged_away:
